@@ -75,7 +75,7 @@ theorem externalProblems_ph (t : ExternalTask) (hpo : t.proofOutline = []) (fuel
         (do
           let rightTh ← theoryTranslate t t.phMap fuel t.program
           let right := (controlTranslate t.userGuide.publicPreds rightTh).map fun a =>
-            { a with formula := a.formula.renamePreds (t.specPrivate.filter (· ∈ t.progPrivate)) }
+            { a with formula := a.formula.renamePreds t.clashMap }
           let ugAss ← t.userGuide.formulas.foldl (ugAssStep t.userGuide t.phMap) (.ok [])
           let taken := right.foldl (fun acc a => ext acc a.formula.preds)
             (left.foldl (fun acc a => ext acc a.formula.preds) t.userGuide.inputs)
@@ -137,8 +137,8 @@ theorem rightSide_stable_ph (t : ExternalTask) (hbyp : t.bypassTightness = false
     (∀ a ∈ rightSide t ΓR, sat J a.formula ρ) ↔
       Stable (t.program.substSym (phNu t.phMap J.fc)) t.userGuide.inputs
         (restrictTo (ext t.program.preds t.userGuide.inputs)
-          (renamedInterp (t.specPrivate.filter (· ∈ t.progPrivate)) J.pred)) J.fc ∧
-      OutputsEmpty t t.program (renamedInterp (t.specPrivate.filter (· ∈ t.progPrivate)) J.pred) := by
+          (renamedInterp t.clashMap J.pred)) J.fc ∧
+      OutputsEmpty t t.program (renamedInterp t.clashMap J.pred) := by
   have hperr : programError t t.program t.progPrivate = none := by
     cases hP : programError t t.program t.progPrivate with
     | none => rfl
@@ -152,11 +152,11 @@ theorem rightSide_stable_ph (t : ExternalTask) (hbyp : t.bypassTightness = false
   obtain ⟨htR, _, hinsR⟩ := C11.programError_none hperr
   have htR' : isTight t.program = true := htR.resolve_right (by simp [hbyp])
   obtain ⟨hpR, hsem⟩ := theoryTranslate_ok_ph t t.phMap fuel t.program ΓR hR
-  obtain ⟨Γ, hΓ, hsemR⟩ := hsem ⟨renamedInterp (t.specPrivate.filter (· ∈ t.progPrivate)) J.pred, J.fc⟩
+  obtain ⟨Γ, hΓ, hsemR⟩ := hsem ⟨renamedInterp t.clashMap J.pred, J.fc⟩
   have hst := completion_stable (t.program.substSym (phNu t.phMap J.fc)) t.userGuide.inputs
     (by rw [isTight_substSym]; exact htR') (by rw [globalsPanic_substSym]; exact hpR)
     (by rw [Program.headPreds_substSym]; exact hinsR) Γ hΓ
-    (renamedInterp (t.specPrivate.filter (· ∈ t.progPrivate)) J.pred) J.fc ρ
+    (renamedInterp t.clashMap J.pred) J.fc ρ
   rw [Program.preds_substSym] at hst
   rw [← hst, ← hsemR ρ]
   unfold rightSide
@@ -184,13 +184,13 @@ theorem external_refutes_spec_ph (t : ExternalTask) (S : Specification) (hspec :
               (∀ a ∈ S, lFwdPrem a = true → sat J (a.formula.replacePlaceholders t.phMap) ρ) ∧
               ¬ (Stable (t.program.substSym (phNu t.phMap J.fc)) t.userGuide.inputs
                 (restrictTo (ext t.program.preds t.userGuide.inputs)
-                  (renamedInterp (t.specPrivate.filter (· ∈ t.progPrivate)) J.pred)) J.fc ∧
-                OutputsEmpty t t.program (renamedInterp (t.specPrivate.filter (· ∈ t.progPrivate)) J.pred))) ∨
+                  (renamedInterp t.clashMap J.pred)) J.fc ∧
+                OutputsEmpty t t.program (renamedInterp t.clashMap J.pred))) ∨
            ((t.direction = .universal ∨ t.direction = .backward) ∧
               (Stable (t.program.substSym (phNu t.phMap J.fc)) t.userGuide.inputs
                 (restrictTo (ext t.program.preds t.userGuide.inputs)
-                  (renamedInterp (t.specPrivate.filter (· ∈ t.progPrivate)) J.pred)) J.fc ∧
-                OutputsEmpty t t.program (renamedInterp (t.specPrivate.filter (· ∈ t.progPrivate)) J.pred)) ∧
+                  (renamedInterp t.clashMap J.pred)) J.fc ∧
+                OutputsEmpty t t.program (renamedInterp t.clashMap J.pred)) ∧
               ∃ a ∈ S, lBwdConc a = true ∧ ¬ sat J (a.formula.replacePlaceholders t.phMap) ρ)))) := by
   obtain ⟨hpre, left, ΓR, _, hleft, hR, hps⟩ := externalProblems_ph t hpo fuel ps h
   simp only [hspec] at hleft
@@ -234,13 +234,13 @@ theorem external_refutes_programs_ph (t : ExternalTask) (PL : Program) (hspec : 
               (∀ a ∈ rightSide t ΓR, a.role = .assumption → sat J a.formula ρ) ∧
               ¬ (Stable (t.program.substSym (phNu t.phMap J.fc)) t.userGuide.inputs
                 (restrictTo (ext t.program.preds t.userGuide.inputs)
-                  (renamedInterp (t.specPrivate.filter (· ∈ t.progPrivate)) J.pred)) J.fc ∧
-                OutputsEmpty t t.program (renamedInterp (t.specPrivate.filter (· ∈ t.progPrivate)) J.pred))) ∨
+                  (renamedInterp t.clashMap J.pred)) J.fc ∧
+                OutputsEmpty t t.program (renamedInterp t.clashMap J.pred))) ∨
            ((t.direction = .universal ∨ t.direction = .backward) ∧
               (Stable (t.program.substSym (phNu t.phMap J.fc)) t.userGuide.inputs
                 (restrictTo (ext t.program.preds t.userGuide.inputs)
-                  (renamedInterp (t.specPrivate.filter (· ∈ t.progPrivate)) J.pred)) J.fc ∧
-                OutputsEmpty t t.program (renamedInterp (t.specPrivate.filter (· ∈ t.progPrivate)) J.pred)) ∧
+                  (renamedInterp t.clashMap J.pred)) J.fc ∧
+                OutputsEmpty t t.program (renamedInterp t.clashMap J.pred)) ∧
               (∀ a ∈ leftSide t ΓL, a.role = .assumption → sat J a.formula ρ) ∧
               ¬ (Stable (PL.substSym (phNu t.phMap J.fc)) t.userGuide.inputs
                 (restrictTo (ext PL.preds t.userGuide.inputs) J.pred) J.fc ∧ OutputsEmpty t PL J.pred))))) := by
